@@ -106,6 +106,16 @@ func (e *Exec) makeClosure(s *State, x *ssa.MakeClosure) Value {
 	cl := &ClosureV{Fn: x.Fn.(*ssa.Function)}
 	for _, b := range x.Bindings {
 		cl.Bindings = append(cl.Bindings, e.val(s, b))
+		if a, ok := b.(*ssa.Alloc); ok {
+			// from here on the closure (possibly run by other code or another goroutine) can reach the cell
+			var keep []privCell
+			for _, pc := range s.priv {
+				if pc.alloc != a {
+					keep = append(keep, pc)
+				}
+			}
+			s.priv = keep
+		}
 	}
 	n := TS.Fresh("closure_"+cl.Fn.Name(), RefSort)
 	s.assume(App("<", "Bool", n, IntLit(0))) // function values live outside the object heap
@@ -207,11 +217,35 @@ func (e *Exec) havocAllHeaps(s *State) {
 		ks = append(ks, k)
 	}
 	sort.Strings(ks)
+	// cells private to this activation keep their contents
+	type saved struct {
+		name string
+		ref  *Node
+		val  *Node
+	}
+	var keep []saved
+	for _, pc := range s.priv {
+		t := derefType(pc.alloc.Type())
+		if _, isArr := t.Underlying().(*types.Array); isArr {
+			continue
+		}
+		for _, li := range e.mode.leaves(t) {
+			name := heapNameObj(t, li.Path)
+			if h, ok := s.heaps[name]; ok {
+				keep = append(keep, saved{name, pc.ref, Select(h, pc.ref)})
+			}
+		}
+	}
 	for _, k := range ks {
 		if e.v.immutableHeap(k) {
 			continue
 		}
 		e.setHeap(s, k, TS.Fresh("havoc_"+k, e.heapSorts[k]))
+	}
+	for _, sv := range keep {
+		if h, ok := s.heaps[sv.name]; ok {
+			s.heaps[sv.name] = Store(h, sv.ref, sv.val)
+		}
 	}
 	e.havocAll = true
 }
@@ -362,7 +396,23 @@ func (e *Exec) applyContract(s *State, ins ssa.Instruction, fc *FuncContract, si
 		}
 	}
 	for _, en := range fc.Ensures {
-		s.assume(sub.evalWith(e, en, s, pre, vars))
+		func() {
+			defer func() {
+				if r := recover(); r != nil {
+					msg := fmt.Sprint(r)
+					if u, ok := r.(unsupportedErr); ok {
+						msg = u.msg
+					}
+					if e.mode != fc.Mode {
+						// a postcondition written for the other arithmetic mode: dropping an assumption is sound
+						e.logAbs("postcondition of %s not expressible in this arithmetic mode, dropped: %s", cname, trunc(en.Text, 60))
+						return
+					}
+					panic(unsupportedErr{"postcondition of " + cname + ": " + msg})
+				}
+			}()
+			s.assume(sub.evalWith(e, en, s, pre, vars))
+		}()
 	}
 	return packResults(res)
 }
